@@ -25,8 +25,10 @@ class RunawayDraws(Exception):
 class RandomStub:
     """stands in for the module `random` inside EoN modules"""
 
-    def __init__(self, ties=False, max_expo=None, max_uniform_per_step=None, on_draw=None, max_draws=None):
+    def __init__(self, ties=False, max_expo=None, max_uniform_per_step=None, on_draw=None, max_draws=None, truncate=False):
         self.max_draws = max_draws
+        self.truncate = truncate      # after max_expo clock draws: "the next event never happens" (+inf) instead of aborting
+        self.truncated = False
         self.ties = ties
         self.max_expo = max_expo
         self.max_unif = max_uniform_per_step
@@ -58,6 +60,10 @@ class RandomStub:
         self.n_expo += 1
         self.n_unif_step = 0
         if self.max_expo is not None and self.n_expo > self.max_expo:
+            if self.truncate:
+                self.truncated = True
+                symx.ENG.log.append(('expo', lambd, float('inf')))
+                return float('inf')
             raise BoundReached('exponential draws > %d' % self.max_expo)
         e = symx.ENG.var('e', lo=0, lo_strict=not self.ties)
         self._log('expo', lambd, e)
